@@ -132,6 +132,66 @@ theorem nodeGraph_order_independent (a b : NodeList) (h : a ≃ₙ b) (id : Stri
   exact ⟨path_congr a b h id z, path_congr b a ⟨fun x => (h.ids x).symm, fun x => (h.roots x).symm,
     fun s t d => (h.edges s t d).symm⟩ id z⟩
 
+theorem targets_congr (a b : NodeList) (hi : ∀ x, x ∈ a.ids ↔ x ∈ b.ids)
+    (he : ∀ s t d, a.HasEdge s t d ↔ b.HasEdge s t d) (x y : String) : y ∈ a.targets x ↔ y ∈ b.targets x := by
+  unfold NodeList.targets
+  simp only [List.mem_filter, List.mem_flatMap, decide_eq_true_eq]
+  constructor
+  · rintro ⟨⟨e, ⟨he1, hs⟩, hy⟩, hyi⟩
+    obtain ⟨e', he', hs', _, hy'⟩ := (he x e.ty y).mp ⟨e, he1, hs, rfl, hy⟩
+    exact ⟨⟨e', ⟨he', hs'⟩, hy'⟩, (hi y).mp hyi⟩
+  · rintro ⟨⟨e, ⟨he1, hs⟩, hy⟩, hyi⟩
+    obtain ⟨e', he', hs', _, hy'⟩ := (he x e.ty y).mpr ⟨e, he1, hs, rfl, hy⟩
+    exact ⟨⟨e', ⟨he', hs'⟩, hy'⟩, (hi y).mpr hyi⟩
+
+theorem reachIn_congr (a b : NodeList) (h : a ≃ₙ b) (s : String) (k : Nat) (z : String) :
+    ReachIn a s k z → ReachIn b s k z := by
+  intro hr
+  induction hr with
+  | zero => exact ReachIn.zero
+  | succ _ hx hz ih =>
+    exact ReachIn.succ ih (hx.imp id (fun hnr hr => hnr ((h.roots _).mpr hr)))
+      ((targets_congr a b h.ids h.edges _ _).mp hz)
+
+theorem equiv_symm {a b : NodeList} (h : a ≃ₙ b) : b ≃ₙ a :=
+  ⟨fun x => (h.ids x).symm, fun x => (h.roots x).symm, fun s t d => (h.edges s t d).symm⟩
+
+/-- the bounded extraction returns the same node set, and the same edge relation, for equivalent
+    (e.g. reordered) lists, at every depth -/
+theorem nodeDescendants_order_independent (a b : NodeList) (h : a ≃ₙ b) (id : String) (depth : Int)
+    (hin : id ∈ a.ids) :
+    (∀ z, z ∈ (a.nodeDescendants id depth).ids ↔ z ∈ (b.nodeDescendants id depth).ids) ∧
+    (∀ s t d, (a.nodeDescendants id depth).HasEdge s t d ↔ (b.nodeDescendants id depth).HasEdge s t d) := by
+  have hinb : id ∈ b.ids := (h.ids id).mp hin
+  have hids : ∀ z, z ∈ (a.nodeDescendants id depth).ids ↔ z ∈ (b.nodeDescendants id depth).ids := by
+    intro z
+    rw [nodeDescendants_ids a id depth hin z, nodeDescendants_ids b id depth hinb z]
+    constructor
+    · rintro ⟨k, hk, hr⟩; exact ⟨k, hk, reachIn_congr a b h id k z hr⟩
+    · rintro ⟨k, hk, hr⟩; exact ⟨k, hk, reachIn_congr b a (equiv_symm h) id k z hr⟩
+  refine ⟨hids, ?_⟩
+  intro s t d
+  rw [nodeDescendants_edges, nodeDescendants_edges, h.edges s t d, hids s, hids d]
+
+/-- the one-hop extraction likewise -/
+theorem nodeSiblings_order_independent (a b : NodeList) (h : a ≃ₙ b) (id : String) (ra rb : NodeList)
+    (ha : a.nodeSiblings id = some ra) (hb : b.nodeSiblings id = some rb) (hin : id ∈ a.ids) :
+    (∀ z, z ∈ ra.ids ↔ z ∈ rb.ids) ∧ (∀ s t d, ra.HasEdge s t d ↔ rb.HasEdge s t d) := by
+  have hinb : id ∈ b.ids := (h.ids id).mp hin
+  have hids : ∀ z, z ∈ ra.ids ↔ z ∈ rb.ids := by
+    intro z
+    rw [nodeSiblings_ids a id ra ha hin z, nodeSiblings_ids b id rb hb hinb z, succ_congr a b h.ids h.edges id z]
+  refine ⟨hids, ?_⟩
+  intro s t d
+  rw [nodeSiblings_edges a id ra ha hin, nodeSiblings_edges b id rb hb hinb, h.edges s t d, hids d]
+
+/-- and the full-graph extraction returns the same edge relation too -/
+theorem nodeGraph_edges_order_independent (a b : NodeList) (h : a ≃ₙ b) (id : String) (ra rb : NodeList)
+    (ha : a.nodeGraph id = some ra) (hb : b.nodeGraph id = some rb) (s : String) (t : Int) (d : String) :
+    ra.HasEdge s t d ↔ rb.HasEdge s t d := by
+  rw [nodeGraph_edges a id ra ha, nodeGraph_edges b id rb hb, h.edges s t d,
+    nodeGraph_order_independent a b h id ra rb ha hb s, nodeGraph_order_independent a b h id ra rb ha hb d]
+
 /-- non-vacuity: on a two-node cycle with a self-loop the full graph of `a` is `{a, b}` -/
 example : ∃ r, ({ nodes := [{ id := "a" }, { id := "b" }],
                   edges := [{ ty := 5, src := "a", tos := ["b", "a"] }, { ty := 10, src := "b", tos := ["a"] }],
